@@ -3215,8 +3215,15 @@ class PGPKeyring(collections_abc.Container, collections_abc.Iterable, collection
 
             # an encrypted message is of use to a key that can decrypt it: of several recipients, prefer one
             # whose private half is loaded over another recipient's public key
-            private = [issuer for issuer in known if not self._get_keys_by_id(issuer)[0].is_public]
-            yield self._get_keys_by_id(private[0] if identifier.is_encrypted and private else known[0])[0]
+            # (a stub - GNU-dummy or smartcard S2K - is a secret key packet without the secret material: it cannot decrypt)
+            if identifier.is_encrypted:
+                for issuer in known:
+                    for key in self._get_keys_by_id(issuer):
+                        if not key.is_public and not key._is_stub:
+                            yield key
+                            return
+
+            yield self._get_keys_by_id(known[0])[0]
             return
 
         if isinstance(identifier, PGPSignature):
